@@ -45,11 +45,12 @@ Fixpoint dumpv (t : vt) : vt :=
   | x => x
   end.
 
-(* _convert_value: models dumped, lists mapped, everything else (dicts included) untouched *)
+(* _convert_value (after /repo dd85cf5): models dumped, lists and dicts mapped *)
 Fixpoint convert_value (t : vt) : vt :=
   match t with
   | VModel _ => dumpv t
   | VList l => VList (map convert_value l)
+  | VDict kv => VDict (map (fun p : string * vt => let (k, v) := p in (k, convert_value v)) kv)
   | x => x
   end.
 
@@ -178,6 +179,17 @@ Definition default_headers : headers := [("Content-Type", "application/json")].
 
 (* what is on the wire: header names are case-insensitive, httpx lower-cases them *)
 Definition lower (s : string) : string := l2s (map to_lower (s2l s)).
+
+(* _execute_json (after /repo 7378d1f):
+     caller_headers = kwargs.get("headers", {})
+     headers = {}
+     if not any(name.lower() == "content-type" for name in caller_headers):
+         headers["Content-Type"] = "application/json"
+     headers.update(caller_headers) *)
+Definition has_ct (u : headers) : bool :=
+  existsb (fun p => String.eqb (lower (fst p)) "content-type") u.
+Definition merge_headers (u : headers) : headers :=
+  dict_update (if has_ct u then [] else default_headers) u.
 Definition wire_values (name : string) (h : headers) : list string :=
   map snd (filter (fun p => String.eqb (lower (fst p)) (lower name)) h).
 
@@ -220,7 +232,7 @@ Definition build_request (url : string) (c : call) : request :=
         RMultipart url (c_headers c) (c_timeout c)
                    (body_json (c_query c) (c_opname c) vj) (fmap_json fmap) (files_parts files)
       else
-        RJson url (dict_update default_headers (match c_headers c with Some h => h | None => [] end))
+        RJson url (merge_headers (match c_headers c with Some h => h | None => [] end))
               (c_timeout c) (body_json (c_query c) (c_opname c) vj)
   end.
 
@@ -319,43 +331,38 @@ Fixpoint wf_keys (t : vt) : bool :=
   end.
 
 (* ---- finding classes / restrictions as booleans ---- *)
-(* F20: a caller header that is Content-Type up to case but not exactly "Content-Type" *)
-Definition ct_other_case (h : headers) : bool :=
-  existsb (fun p => String.eqb (lower (fst p)) "content-type" && negb (String.eqb (fst p) "Content-Type")) h.
 (* caller headers pairwise distinct up to case (otherwise the caller contradicts himself) *)
 Definition names_distinct_ci (h : headers) : bool := keys_unique (map (fun p => lower (fst p)) h).
 
-(* no UNSET and no Upload inside a model; used below *)
-(* [clean depth-insensitive]: tree that json.dumps can serialise once uploads are nulled:
-   no UNSET anywhere, no model and no Upload-in-model outside the reach of _convert_value *)
-Fixpoint dumped_ok (t : vt) : bool :=            (* below a model: pydantic recurses everywhere *)
+(* UNSET anywhere in a tree (model fields included) *)
+Fixpoint has_unset (t : vt) : bool :=
   match t with
-  | VUnset => false
-  | VList l => forallb dumped_ok l
-  | VDict kv => forallb (fun q => dumped_ok (snd q)) kv
-  | VModel fs => forallb (fun q => dumped_ok (snd q)) fs
-  | _ => true
+  | VUnset => true
+  | VList l => existsb has_unset l
+  | VDict kv => existsb (fun q => has_unset (snd q)) kv
+  | VModel fs => existsb (fun q => has_unset (snd q)) fs
+  | _ => false
   end.
-Fixpoint plain_ok (t : vt) : bool :=             (* below a plain dict: nothing is converted *)
-  match t with
-  | VUnset => false
-  | VModel _ => false                            (* finding class C11-model-under-dict *)
-  | VList l => forallb plain_ok l
-  | VDict kv => forallb (fun q => plain_ok (snd q)) kv
-  | _ => true
-  end.
-Fixpoint value_ok (t : vt) : bool :=             (* a top-level value / list element *)
-  match t with
-  | VUnset => false
-  | VModel _ => dumped_ok t
-  | VList l => forallb value_ok l
-  | VDict _ => plain_ok t
-  | _ => true
-  end.
+(* the restriction of the main stream: UNSET only as a top-level value *)
 Definition vars_ok (vars : list (string * vt)) : bool :=
-  forallb (fun q => is_unset (snd q) || value_ok (snd q)) vars.
+  forallb (fun q => is_unset (snd q) || negb (has_unset (snd q))) vars.
 
-(* a model somewhere below a plain dict (not reached by _convert_value) *)
+(* every Upload object anywhere in a value: through lists, dicts and the set fields of models *)
+Fixpoint deep_ids (t : vt) : list nat :=
+  match t with
+  | VUpload id => [id]
+  | VList l => flat_map deep_ids l
+  | VDict kv => flat_map (fun q : string * vt => deep_ids (snd q)) kv
+  | VModel fs =>
+      (fix go (fs : list (mfield * vt)) : list nat :=
+         match fs with
+         | [] => []
+         | (f, v) :: r => if mf_set f then deep_ids v ++ go r else go r
+         end) fs
+  | _ => []
+  end.
+
+(* a model somewhere below a plain dict (regression class of the fixed finding C11-model-under-dict) *)
 Fixpoint has_model (t : vt) : bool :=
   match t with
   | VModel _ => true
@@ -369,6 +376,28 @@ Fixpoint model_under_dict (t : vt) : bool :=
   | VDict _ => has_model t
   | _ => false
   end.
+
+(* ---- the stream behind an Upload: content, current position, seekability.
+   All four clients hand the stream object itself to httpx (files={i: (filename, content, type)});
+   httpx's multipart FileField.render_data rewinds a seekable stream (seek(0)) and reads to EOF, a
+   non-seekable one is read from where it stands.  "The file" of the multipart spec is therefore the
+   whole content of a seekable stream, whatever its position when execute is called. ---- *)
+Record upload := mk_upload {
+  up_filename : string; up_ctype : string; up_content : string; up_pos : nat; up_seekable : bool }.
+Fixpoint drop_s (n : nat) (s : string) : string :=
+  match n, s with
+  | 0, _ => s
+  | S m, String _ r => drop_s m r
+  | S _, EmptyString => EmptyString
+  end.
+Definition sent_bytes (u : upload) : string :=
+  if up_seekable u then up_content u else drop_s (up_pos u) (up_content u).
+Definition set_pos (n : nat) (u : upload) : upload :=
+  mk_upload (up_filename u) (up_ctype u) (up_content u) n (up_seekable u).
+Definition after_send (u : upload) : upload := set_pos (String.length (up_content u)) u.
+(* the same Upload sent n times in a row (a history on any clients): the bytes of each send *)
+Fixpoint send_n (n : nat) (u : upload) : list string :=
+  match n with 0 => [] | S m => sent_bytes u :: send_n m (after_send u) end.
 
 (* ---- sexp interface ---- *)
 Definition dField (e : sexp) : option mfield :=
@@ -499,11 +528,18 @@ Definition run_client (e : sexp) : sexp :=
           L [request_to_sexp (snd (execute (mk_cstate url None) c));
              sB (match v' with Some kv => vars_ok kv && wf_keys (VDict kv) | None => true end);
              sB (match v' with Some kv => existsb (fun q => model_under_dict (snd q)) kv | None => false end);
-             sB (match h' with Some hh => ct_other_case hh | None => false end);
+             sB (match h' with Some hh => has_ct hh | None => false end);
              sB (roundtrip_holds v');
              L (map (fun n => A n) (wire_values "content-type"
                   (match snd (execute (mk_cstate url None) c) with RJson _ hh _ _ => hh | _ => [] end)))]
       | _, _, _, _ => sErr "execute: bad arguments"
+      end
+  | L [A "sent_bytes"; A content; pos; seekable] =>
+      match dNat pos, dB seekable with
+      | Some n, Some b =>
+          let u := mk_upload "" "" content n b in
+          L [A (sent_bytes u); sN (up_pos (after_send u)); L (map (fun x => A x) (send_n 3 u))]
+      | _, _ => sErr "sent_bytes: bad arguments"
       end
   | _ => sErr "client: bad command"
   end.
